@@ -45,7 +45,12 @@ pub fn compress(c: Comp, data: &[u8]) -> Vec<u8> {
 pub const ENV_BRACES_NAME: &str = "L4V_C07_BR";
 pub const ENV_BRACES_VALUE: &str = "br{}ace";
 
-const PATTERNS: [&str; 7] = [
+/// A value with a path separator: the index lands in a directory component only after expansion.
+pub const ENV_TAIL_NAME: &str = "L4V_C07_TAIL";
+pub const ENV_TAIL_VALUE: &str = "d/app.log";
+
+const PATTERNS: [&str; 8] = [
+    "arch/{}.$ENV{L4V_C07_TAIL}",
     "app.{}.log",
     "arch/{}/app.log",
     "arch/{}/app.{}.log",
@@ -60,6 +65,7 @@ pub fn archive_rel(pattern_rel: &str, idx: u64) -> String {
         .replace("{}", &idx.to_string())
         .replace(&format!("$ENV{{{}}}", ENV_NAME), ENV_VALUE)
         .replace(&format!("$ENV{{{}}}", ENV_BRACES_NAME), ENV_BRACES_VALUE)
+        .replace(&format!("$ENV{{{}}}", ENV_TAIL_NAME), ENV_TAIL_VALUE)
 }
 
 fn gen_content(rng: &mut Rng, tag: &str) -> Vec<u8> {
@@ -192,6 +198,49 @@ fn one_case(rep: &mut Report, rng: &mut Rng, idx: u64) {
                     before = snapshot(&root).unwrap();
                 }
             }
+        }
+        // now and then the file to roll is not there (removed behind the appender's back): whatever roll()
+        // answers, it must not panic and must not invent an archive
+        if k > 0 && rng.chance(1, 10) {
+            let _ = std::fs::remove_file(&active);
+            let known: Vec<Vec<u8>> = w.values().cloned().collect();
+            let r = trap::catch(|| roller.roll(Path::new(&active)));
+            if let Err(p) = r {
+                rep.violation(&format!("C07:panic:roll-of-a-missing-file:{}", p.site()), json!({"case": desc, "roll": k, "panic": p.message}));
+                return;
+            }
+            rep.count("rolls_of_a_missing_file", 1);
+            let after = snapshot(&root).unwrap();
+            let mut pool = known.clone();
+            let mut neww: BTreeMap<u64, Vec<u8>> = BTreeMap::new();
+            for (j, name) in managed.iter().enumerate() {
+                if let Some(Entry::File { bytes, .. }) = after.get(name) {
+                    match decode_archive(name, bytes) {
+                        Ok(got) => {
+                            if let Some(pos) = pool.iter().position(|c| *c == got) {
+                                pool.remove(pos);
+                                neww.insert(b + j as u64, got);
+                            } else {
+                                rep.violation("C07:archive-invented-by-a-failed-roll", json!({"case": desc, "roll": k,
+                                    "what": format!("after roll() of a missing file, {} holds {} bytes that were never rolled (or a second copy)", name, got.len())}));
+                                return;
+                            }
+                        }
+                        Err(e) => {
+                            rep.violation("C07:archive-invented-by-a-failed-roll", json!({"case": desc, "roll": k,
+                                "what": format!("after roll() of a missing file, {} does not decode: {}", name, e)}));
+                            return;
+                        }
+                    }
+                }
+            }
+            w = neww;
+            rolled.clear();
+            before = after;
+            if let Some(wt) = watch.as_mut() {
+                let _ = wt.drain();
+            }
+            continue;
         }
         let content = gen_content(rng, &format!("roll{}", k));
         std::fs::write(&active, &content).unwrap();
@@ -355,6 +404,7 @@ fn one_case(rep: &mut Report, rng: &mut Rng, idx: u64) {
 pub fn run(rep: &mut Report) {
     std::env::set_var(ENV_NAME, ENV_VALUE);
     std::env::set_var(ENV_BRACES_NAME, ENV_BRACES_VALUE);
+    std::env::set_var(ENV_TAIL_NAME, ENV_TAIL_VALUE);
     rep.rule = "Roll::roll called directly on FixedWindowRoller / DeleteRoller: base in {0,1,3,4e9}, count in {0,1,2,3,4,7}, patterns with the \
         index in the file name / in a directory component / repeated / behind $ENV{..} / .gz / .zst, 0-12 successive rolls of \
         empty, small, multi-KiB and 200 KiB contents, initial states empty / full window / gaps / archives beyond the window / \
